@@ -616,6 +616,11 @@ class _SibInterp(FinamInterp):
             return 7
         return super().builtin(name, args, kwargs, node)
 
+    def call(self, fv, args, kwargs, node, mod):
+        if isinstance(fv, Sym) and fv.op == "ext" and fv.args[0] == "int" and args and isinstance(args[0], int):
+            return int(args[0])
+        return super().call(fv, args, kwargs, node, mod)
+
 
 def r32_gridsib(repo, sink):
     """Sibling agreement by abstract evaluation of the StructuredGrid getters for every
@@ -681,7 +686,27 @@ def r32_gridsib(repo, sink):
                     worst.setdefault("raise", f"{tag}: raises {r.name}")
                 except Undecided as u:
                     raise AnalysisError(f"StructuredGrid getters: undecidable {u}") from u
-    for n in ("data_shape", "data_axes", "points", "cell_centers", "cells", "data_points"):
+    # counts for regular and degenerate extents (extents are configuration values)
+    for nm in ("cell_count", "point_count"):
+        g = repo.resolve(c, nm, "getter")
+        if g is None:
+            continue
+        getters[nm] = g
+        for dims in ((5, 4, 3), (5, 4, 1), (4, 1), (1, 4), (3, 1, 4), (1,), (1, 1), (2, 2)):
+            go = Obj(cls=c, label="grid")
+            go.fields.update(dims=dims, dim=len(dims))
+            try:
+                got = _SibInterp(repo).run(g, [], self_obj=go)
+            except (Raised, Undecided) as exc:
+                raise AnalysisError(f"StructuredGrid.{nm}: {exc}") from exc
+            want = 1
+            for d in dims:
+                want *= (max(d - 1, 1) if nm == "cell_count" else d)
+            if got != want:
+                worst.setdefault(nm, f"dims {dims}: {nm} is {got!r}, must be {want} (a degenerate axis contributes one layer of cells)")
+    for n in ("data_shape", "data_axes", "points", "cell_centers", "cells", "data_points", "cell_count", "point_count"):
+        if n not in getters and n != "data_points":
+            continue
         sink.check(n not in worst, "R32", f"sibling:{n}", getters.get(n, dp),
                    ok=f"{cases} layouts: {n} follows axis order, axis directions, memory order and data location",
                    bad=worst.get(n, ""))
@@ -867,3 +892,205 @@ def r32c_cellcenters(repo, sink):
         if why is None and not stores:
             why = "centroids are not written back to the rows of the selected cell type"
     sink.check(why is None, "R32", "cell-centres", f, ok="centroid = mean over exactly the nodes of the cell (padding excluded), per cell type", bad=why or "")
+
+
+# ========================================================================== R32d
+# Mixed-radix index algebra for gen_cells: the running cell index r of cell (i, j, k) in
+# Fortran order is r = i + N0*j + N0*N1*k with 0 <= i < N0, 0 <= j < N1.  Floor division and
+# modulo by the weights 1, N0, N0*N1 are exact digit operations; with them every corner
+# column of gen_cells reduces to a polynomial in (i, j, k, N0, N1) that must be the
+# Fortran-order id of one corner of that cell in the point grid (N0+1) x (N1+1) x (N2+1).
+from ..poly import Poly as _Poly  # noqa: E402
+
+
+class _Opaque(Exception):
+    pass
+
+
+def _mono_div(mono, div):
+    """Divide monomial (tuple of (atom, pow)) by monomial div; None if not divisible."""
+    m = dict(mono)
+    for a, p in div:
+        if m.get(a, 0) < p:
+            return None
+        m[a] -= p
+        if m[a] == 0:
+            del m[a]
+    return tuple(sorted(m.items()))
+
+
+def _idx_reduce(v, weights, digits_below):
+    """Sym tree with add/sub/mul/floordiv/mod -> Poly. weights: list of Poly weights
+    (W1=N0, W2=N0*N1); digits_below[w] = Poly of the digits strictly below that weight."""
+    from ..interp import Sym as _S
+    if isinstance(v, bool):
+        raise _Opaque("bool")
+    if isinstance(v, int):
+        return _Poly.const(v)
+    if isinstance(v, _S):
+        if v.op in ("add", "sub", "mul"):
+            a, b = _idx_reduce(v.args[0], weights, digits_below), _idx_reduce(v.args[1], weights, digits_below)
+            return a + b if v.op == "add" else a - b if v.op == "sub" else a * b
+        if v.op in ("floordiv", "mod"):
+            a, b = _idx_reduce(v.args[0], weights, digits_below), _idx_reduce(v.args[1], weights, digits_below)
+            w = next((w for w in weights if w == b), None)
+            if w is None:
+                raise _Opaque(f"{v.op} by {b!r}, which is not a mixed-radix weight of the cell index")
+            (dmono, dcoef), = w.terms.items()
+            high, low = {}, {}
+            for mono, coef in a.terms.items():
+                q = _mono_div(mono, dmono)
+                if q is not None:
+                    high[q] = high.get(q, 0) + coef / dcoef
+                else:
+                    low[mono] = coef
+            lowp = _Poly(low)
+            # the remainder must consist of digits below this weight only (then 0 <= low < weight)
+            allowed = digits_below[repr(w)]
+            for mono, coef in lowp.terms.items():
+                if mono not in allowed.terms or allowed.terms[mono] != coef:
+                    raise _Opaque(f"remainder {lowp!r} is not a sum of lower digits")
+            return _Poly(high) if v.op == "floordiv" else lowp
+        return _Poly.atom(v)
+    raise _Opaque(repr(v))
+
+
+class _CellTable:
+    def __init__(self, ncols):
+        self.cols = {}
+        self.ncols = ncols
+
+
+class _CellInterp(FinamInterp):
+    def binop(self, op, left, right, node):
+        if isinstance(op, ast.FloorDiv):
+            return Sym("floordiv", left, right)
+        if isinstance(op, ast.Mod):
+            return Sym("mod", left, right)
+        if isinstance(left, int) and isinstance(right, int):
+            return super().binop(op, left, right, node)
+        name = {ast.Add: "add", ast.Sub: "sub", ast.Mult: "mul"}.get(type(op))
+        if name:
+            return Sym(name, left, right)
+        return super().binop(op, left, right, node)
+
+    def ext_call(self, name, args, kwargs, node):
+        short = name.split(".")[-1]
+        if short == "empty":
+            shape = args[0]
+            return _CellTable(shape[1] if isinstance(shape, (tuple, list)) and len(shape) > 1 else 1)
+        return super().ext_call(name, args, kwargs, node)
+
+    def get_item(self, c, k, node):
+        if isinstance(c, _CellTable) and isinstance(k, tuple) and len(k) == 2 and isinstance(k[1], int):
+            if k[1] not in c.cols:
+                raise AnalysisError(f"cell column {k[1]} read before it is written")
+            return c.cols[k[1]]
+        return super().get_item(c, k, node)
+
+    def set_item(self, c, k, v, node):
+        if isinstance(c, _CellTable) and isinstance(k, tuple) and len(k) == 2 and isinstance(k[1], int):
+            c.cols[k[1]] = v
+            return
+        super().set_item(c, k, v, node)
+
+    def e_Subscript(self, e, env, mod):
+        cval = self.eval(e.value, env, mod)
+        if isinstance(cval, _CellTable) and isinstance(e.slice, ast.Tuple):
+            idx = e.slice.elts[1]
+            return self.get_item(cval, (None, self.eval(idx, env, mod)), e)
+        return super().e_Subscript(e, env, mod)
+
+    def assign(self, t, v, env, mod):
+        if isinstance(t, ast.Subscript) and isinstance(t.slice, ast.Tuple):
+            cval = self.eval(t.value, env, mod)
+            if isinstance(cval, _CellTable):
+                self.set_item(cval, (None, self.eval(t.slice.elts[1], env, mod)), v, t)
+                return
+        super().assign(t, v, env, mod)
+
+
+def r32d_cellcorners(repo, sink):
+    import itertools
+    gc = repo.func("src/finam/data/grid_tools.py", "gen_cells")
+    chain = [n for n in gc.node.body if isinstance(n, ast.If) and "mesh_dim" in U(n.test)]
+    if not chain:
+        sink.unknown("R32", "cell-corners", gc, "gen_cells: no branch on mesh_dim")
+        return
+    # flatten if / elif / else on mesh_dim
+    branches = {}
+    cur = chain[0]
+    while True:
+        t = U(cur.test).replace(" ", "")
+        if t.startswith("mesh_dim=="):
+            branches[int(t.split("==")[1])] = cur.body
+        if len(cur.orelse) == 1 and isinstance(cur.orelse[0], ast.If) and "mesh_dim" in U(cur.orelse[0].test):
+            cur = cur.orelse[0]
+            continue
+        if cur.orelse:
+            branches["else"] = cur.orelse
+        break
+    N = [Sym("N0"), Sym("N1"), Sym("N2")]
+    I = [Sym("i"), Sym("j"), Sym("k")]
+    for md in (1, 2, 3):
+        body = branches.get(md, branches.get("else") if md == 3 else None)
+        if body is None:
+            sink.unknown("R32", f"cell-corners:{md}D", gc, f"no branch for mesh dimension {md}")
+            continue
+        # r = i + N0*j + N0*N1*k (digits beyond the mesh dimension are absent)
+        r = I[0]
+        if md >= 2:
+            r = Sym("add", r, Sym("mul", N[0], I[1]))
+        if md >= 3:
+            r = Sym("add", r, Sym("mul", Sym("mul", N[0], N[1]), I[2]))
+        it = _CellInterp(repo)
+        env = {"c_dim": N[:md], "c_cnt": Sym("CNT"), "c_rng": Sym("R"), "mesh_dim": md, "__mod__": gc.module}
+        try:
+            it.exec_block(body, env, gc.module)
+        except (AnalysisError, Undecided, Raised) as exc:
+            sink.unknown("R32", f"cell-corners:{md}D", gc, f"corner formulas outside vocabulary: {exc}")
+            continue
+        table = env.get("c")
+        if not isinstance(table, _CellTable) or len(table.cols) != 2 ** md:
+            sink.unknown("R32", f"cell-corners:{md}D", gc, f"expected {2 ** md} corner columns")
+            continue
+        from ..absbase import poly_of
+        n0, n1 = _Poly.atom(N[0]), _Poly.atom(N[1])
+        weights = [n0, n0 * n1]
+        i_, j_ = _Poly.atom(I[0]), _Poly.atom(I[1])
+        digits_below = {repr(n0): i_, repr(n0 * n1): i_ + n0 * j_}
+        rp = _idx_reduce(_subst(r, {}), weights, digits_below)
+
+        def red(col):
+            return _idx_reduce(_subst(col, {Sym("R"): r}), weights, digits_below)
+
+        # expected corners: Fortran-order point id in the point grid (N0+1, N1+1, ..)
+        p0, p1 = n0 + _Poly.const(1), n1 + _Poly.const(1)
+        k_ = _Poly.atom(I[2])
+        want = set()
+        for d in itertools.product((0, 1), repeat=md):
+            pid = i_ + _Poly.const(d[0])
+            if md >= 2:
+                pid = pid + p0 * (j_ + _Poly.const(d[1]))
+            if md >= 3:
+                pid = pid + p0 * p1 * (k_ + _Poly.const(d[2]))
+            want.add(pid)
+        try:
+            got = [red(table.cols[m]) for m in sorted(table.cols)]
+        except _Opaque as exc:
+            sink.bad("R32", f"cell-corners:{md}D", gc,
+                     f"{md}D cells: a corner formula does not reduce to a point id of the cell ({exc}): cells reference wrong or "
+                     "non-existing points unless the cell counts per direction happen to coincide")
+            continue
+        ok = set(got) == want and len(set(got)) == 2 ** md
+        sink.check(ok, "R32", f"cell-corners:{md}D", gc,
+                   ok=f"{md}D cells: the {2 ** md} node columns are exactly the corners of cell (i,j,k) in the Fortran-ordered point grid",
+                   bad=f"{md}D cells: node columns reduce to {sorted(map(repr, got))}, the corners of cell (i,j,k) are {sorted(map(repr, want))}")
+
+
+def _subst(v, mapping):
+    if isinstance(v, Sym):
+        if v in mapping:
+            return mapping[v]
+        return Sym(v.op, *[_subst(a, mapping) for a in v.args])
+    return v
